@@ -365,6 +365,10 @@ func TestCheck(t *testing.T) {
 	r.Meta("rule", "(A) fault-scripted peers: tcp/unix servers that close, reset or fall silent before the request, mid request header, mid request body, after the request, mid response header and mid response body, or answer garbage, a 64 MiB declared length, an error-flagged frame or another call's index; websocket servers that refuse or stall the handshake, close, fall silent, send partial frames or garbage; udp peers that are silent, absent (ICMP refusal) or send garbage; http servers (for the net/http and, in processes of their own, the fasthttp client) that close or stall before/inside the response; a mock service that blocks. Each fault x ending mode {no time-out, client time-out 150 ms, context deadline 150 ms, context cancellation at 40 ms, Abort at 40 ms}. Oracle: the call returns (a call still pending 8 s after it had to end is a violation: connection loss must end it even without a time-out), it returns an error, afterwards the peer turns healthy and the same client must succeed within three attempts; after each batch Abort is called and the client-side goroutines (stack frames inside the transports' conn/Transport and core.Client) and the pending-entry count read through the verif hook must be zero. (B) forced schedules through the verif yield points {before-register, registered, enqueued, before-clean, after-clean} of the tcp/unix/ws/udp connections: a call is held at a point while Abort, connection loss or cancellation happens, then released; it must return and leave no pending entry. (C) slow and never-returning service functions under the service-side ExecuteTimeout plugin and under client time-outs, over every transport. (D) reverse calls to absent, slow and vanishing providers with time-out, cancellation and no time-out. distinct_nontrivial = distinct (part, transport, fault, mode) cells")
 	r.Meta("assumptions", []string{"time-outs of 150 ms; a call counts as hung when still pending 8 s after the event that must end it (generous wall-clock watchdog; lateness below it is recorded, not judged)", "one fault per connection"})
 	if peer.FastHTTPClient {
+		for _, kind := range []string{"http", "fasthttp"} {
+			kind := kind
+			r.Case("abort-many/fasthttp-client-to-"+kind, func(c *h.Case) { abortMany(c, kind) })
+		}
 		for _, sc := range httpScripts() {
 			sc := sc
 			for _, m := range modes() {
@@ -435,6 +439,7 @@ func TestCheck(t *testing.T) {
 	for _, kind := range peer.Kinds {
 		kind := kind
 		r.Case("slow-service/"+kind, func(c *h.Case) { slowService(c, kind) })
+		r.Case("abort-many/"+kind, func(c *h.Case) { abortMany(c, kind) })
 	}
 	for _, kind := range []string{"mock", "tcp"} {
 		kind := kind
@@ -1398,4 +1403,92 @@ func reverseCase(c *h.Case, kind string) {
 	}
 	// (whether the provider's last poll still takes this call is a matter of timing: it only has to return)
 	run("closed-provider/returns", func() error { caller.Invoke("p1", "ok", []interface{}{3}); return errors.New("either outcome") }, true)
+}
+
+// abortMany: several calls pending on a service that does not answer; Abort must end them all,
+// and so must cancelling their contexts one by one.
+func abortMany(c *h.Case, kind string) {
+	r := c.R
+	markBaseline()
+	svc := core.NewService()
+	release := make(chan struct{})
+	svc.AddFunction(func(i int) int {
+		if i < 0 {
+			<-release
+		}
+		return i + 1
+	}, "work")
+	srv, err := peer.Start(kind, svc)
+	if err != nil {
+		close(release)
+		r.Inconclusive(err.Error())
+		return
+	}
+	defer srv.Close()
+	client := srv.NewClient()
+	defer client.Abort()
+	defer close(release) // first: the mock server cannot be closed while its handlers are blocked
+	rep := map[string]interface{}{"transport": kind}
+	for _, n := range []int{1, 2, 4, 9} {
+		for _, how := range []string{"abort", "cancel-each"} {
+			var chans []chan error
+			var cancels []context.CancelFunc
+			for i := 0; i < n; i++ {
+				cc := core.NewClientContext()
+				cc.Timeout = -1
+				ctx, cancel := context.WithCancel(core.WithContext(context.Background(), cc))
+				cancels = append(cancels, cancel)
+				ch := make(chan error, 1)
+				chans = append(chans, ch)
+				go func() {
+					_, err := client.InvokeContext(ctx, "work", []interface{}{-1})
+					ch <- err
+				}()
+			}
+			time.Sleep(60 * time.Millisecond)
+			if how == "abort" {
+				client.Abort()
+			} else {
+				for _, cancel := range cancels {
+					cancel()
+				}
+			}
+			pending := 0
+			deadline := time.After(watchdog)
+			for i, ch := range chans {
+				r.Eval(1)
+				select {
+				case err := <-ch:
+					if err == nil {
+						c.Violation("call-succeeded-without-response:abort-many:"+kind, fmt.Sprintf("call %d of %d returned a result although the service never answered", i, n), rep)
+					}
+				case <-deadline:
+					pending++
+				}
+			}
+			for _, cancel := range cancels {
+				cancel()
+			}
+			if pending > 0 {
+				c.Violation("call-never-returned:abort-many:"+kind+":"+how, fmt.Sprintf("%d of %d calls pending on a silent service are still pending %v after %s", pending, n, watchdog, how), rep)
+				return
+			}
+			// the client stays usable
+			var last error
+			for try := 0; try < 3; try++ {
+				cc := core.NewClientContext()
+				cc.Timeout = 3 * time.Second
+				res, err := client.InvokeContext(core.WithContext(context.Background(), cc), "work", []interface{}{41})
+				if err == nil && len(res) == 1 && fmt.Sprint(res[0]) == "42" {
+					last = nil
+					break
+				}
+				last = fmt.Errorf("res=%v err=%v", res, err)
+			}
+			if last != nil {
+				c.Violation("client-unusable-after-fault:abort-many:"+kind, last.Error(), rep)
+			}
+			r.Distinct(fmt.Sprintf("abort-many|%s|%d|%s", kind, n, how))
+		}
+	}
 }
